@@ -1,6 +1,120 @@
 -------------------------------- MODULE JC04 --------------------------------
-(* C04 — contract of the recorded events of this property (stub).           *)
+(* C04 — addition, subtraction, negation: exact result and exact carry /    *)
+(* overflow report.                                                         *)
+(*                                                                          *)
+(* Event classes (field op):                                                *)
+(*   "add"   a, b [, c]    t = a + b + c         (c = carry-in, any word)   *)
+(*   "sub"   a, b [, bin]  t = a - b - [bin]     (bin = borrow-in mask:     *)
+(*                          all-ones = 1, zero = 0, the crate's encoding)   *)
+(*   "neg"   a [, ch]      t = -a                                           *)
+(*   "mac"   a, b, c, cin  t = a + b*c + cin  -> lo, hi                     *)
+(*   "chain" xs, os        Checked<T> history: once none, always none       *)
+(* ab / bb = precision (bits) of the receiver / of the right-hand side.     *)
+(* rule = precision the documentation gives the result:                     *)
+(*   "recv" the receiver's (Limb, Uint, boxed assigning forms — these       *)
+(*          iterate the receiver's limbs only);                             *)
+(*   "max"  the widest operand's (boxed non-assigning forms: fold_limbs     *)
+(*          "widened to the same width as the widest input").               *)
+(* m = how the form reports a result outside [0, 2^w):                      *)
+(*   "carry"   res = t mod 2^w and the carry word  floor(t / 2^w)           *)
+(*             (sub: the borrow mask, all-ones iff t < 0)                   *)
+(*   "wrap"    res = t mod 2^w                                              *)
+(*   "checked" none iff t outside, else res = t; an / bn = 1: that Checked  *)
+(*             operand already is none, and then the result is none         *)
+(*   "sat"     res = t clamped to [0, 2^w - 1]                              *)
+(*   "panic"   panic iff t outside, else res = t   (operator forms)         *)
+(*   "cneg"    carrying_neg: res and cf = 1 iff a = 0 (as documented)       *)
+(*   "negif"   wrapping_neg_if: negated iff ch = 1, else a unchanged        *)
+(* rp (boxed) = precision of the returned value = w.                        *)
+(*                                                                          *)
+(* Mixed boxed precision: when an assigning form ("recv") gets a right-hand *)
+(* side of larger precision than the receiver, adc_assign / sbb_assign      *)
+(* document a panic and the operators built on them are undocumented; the   *)
+(* code checks this under debug assertions only.  There the contract        *)
+(* accepts a panic, or else the exact outcome for the receiver's width (a   *)
+(* wrong value, a lost carry or a missing overflow panic is rejected).      *)
 EXTENDS BigNat
 
-JudgeC04(e, rg) == FALSE
+C04Has(e, f) == f \in DOMAIN e
+C04MaxW == Max2k(64)                                   \* all-ones word
+
+C04Wider(e) == e.rule = "recv" /\ e.bb > e.ab
+C04W(e) == IF e.rule = "max" /\ e.bb > e.ab THEN e.bb ELSE e.ab
+
+C04Rp(e, w) == C04Has(e, "rp") => e.rp = w
+C04NoneIn(e) == (C04Has(e, "an") /\ e.an = 1) \/ (C04Has(e, "bn") /\ e.bn = 1)
+
+(* outcome for a non-negative true result t at width w *)
+C04Up(e, t, w) ==
+  CASE e.m = "carry"   -> e.k = "ok" /\ e.res = Mod2k(t, w) /\ e.carry = Shr(t, w) /\ C04Rp(e, w)
+    [] e.m = "wrap"    -> e.k = "ok" /\ e.res = Mod2k(t, w) /\ C04Rp(e, w)
+    [] e.m = "checked" -> IF C04NoneIn(e) \/ ~Fits(t, w) THEN e.k = "none"
+                          ELSE e.k = "ok" /\ e.res = t /\ C04Rp(e, w)
+    [] e.m = "sat"     -> e.k = "ok" /\ e.res = (IF Fits(t, w) THEN t ELSE Max2k(w)) /\ C04Rp(e, w)
+    [] e.m = "panic"   -> IF Fits(t, w) THEN e.k = "ok" /\ e.res = t /\ C04Rp(e, w) ELSE e.k = "panic"
+    [] OTHER -> FALSE
+
+(* (a - s) mod 2^w for a < s *)
+C04WrapNeg(a, s, w) == LET r == Mod2k(Sub(s, a), w) IN IF r = Zero THEN Zero ELSE Sub(Pow2(w), r)
+
+(* outcome for a true result a - s at width w *)
+C04Down(e, a, s, w) ==
+  LET neg == Lt(a, s)
+      wr  == IF neg THEN C04WrapNeg(a, s, w) ELSE Mod2k(Sub(a, s), w)
+      in  == ~neg /\ Fits(Sub(a, s), w)            \* true result inside [0, 2^w)
+  IN CASE e.m = "carry"   -> e.k = "ok" /\ e.res = wr /\ e.carry = (IF neg THEN C04MaxW ELSE Zero) /\ C04Rp(e, w)
+       [] e.m = "wrap"    -> e.k = "ok" /\ e.res = wr /\ C04Rp(e, w)
+       [] e.m = "checked" -> IF C04NoneIn(e) \/ ~in THEN e.k = "none"
+                             ELSE e.k = "ok" /\ e.res = Sub(a, s) /\ C04Rp(e, w)
+       [] e.m = "sat"     -> e.k = "ok" /\ e.res = (IF neg THEN Zero ELSE IF in THEN Sub(a, s) ELSE Max2k(w)) /\ C04Rp(e, w)
+       [] e.m = "panic"   -> IF in THEN e.k = "ok" /\ e.res = Sub(a, s) /\ C04Rp(e, w) ELSE e.k = "panic"
+       [] OTHER -> FALSE
+
+C04Add(e) ==
+  LET c == IF C04Has(e, "c") THEN e.c ELSE Zero
+      t == Add(Add(e.a, e.b), c)
+  IN (C04Wider(e) /\ e.k = "panic") \/ C04Up(e, t, C04W(e))
+
+C04Sub(e) ==
+  LET bw == IF C04Has(e, "bin") /\ e.bin = C04MaxW THEN One ELSE Zero
+      s  == Add(e.b, bw)
+  IN /\ C04Has(e, "bin") => e.bin \in {Zero, C04MaxW}       \* the recorder only passes masks
+     /\ (C04Wider(e) /\ e.k = "panic") \/ C04Down(e, e.a, s, C04W(e))
+
+C04Neg(e) ==
+  LET w == e.ab
+      n == NegMod2k(e.a, w)
+  IN /\ e.k = "ok"
+     /\ C04Rp(e, w)
+     /\ CASE e.m = "wrap"  -> e.res = n
+          [] e.m = "cneg"  -> e.res = n /\ e.cf = (IF e.a = Zero THEN 1 ELSE 0)
+          [] e.m = "negif" -> e.res = (IF e.ch = 1 THEN n ELSE e.a)
+          [] OTHER -> FALSE
+
+C04Mac(e) ==
+  LET t == Add(Add(e.a, Mul(e.b, e.c)), e.cin)
+  IN e.k = "ok" /\ e.lo = Mod2k(t, 64) /\ e.hi = Shr(t, 64)
+
+(* Checked history: acc = <<is_some, value>> *)
+RECURSIVE C04Fold(_, _, _, _, _)
+C04Fold(xs, os, w, i, acc) ==
+  IF i > Len(os) THEN acc
+  ELSE LET y == xs[i + 1]
+           nx == IF ~acc[1] THEN acc
+                 ELSE IF os[i] = 43                                  \* '+'
+                   THEN (LET t == Add(acc[2], y) IN IF Fits(t, w) THEN <<TRUE, t>> ELSE <<FALSE, Zero>>)
+                   ELSE (IF Ge(acc[2], y) THEN <<TRUE, Sub(acc[2], y)>> ELSE <<FALSE, Zero>>)
+       IN C04Fold(xs, os, w, i + 1, nx)
+
+C04Chain(e) ==
+  LET r == C04Fold(e.xs, e.os, e.ab, 1, <<TRUE, e.xs[1]>>)
+  IN IF r[1] THEN e.k = "ok" /\ e.res = r[2] ELSE e.k = "none"
+
+JudgeC04(e, rg) ==
+  CASE e.op = "add"   -> C04Add(e)
+    [] e.op = "sub"   -> C04Sub(e)
+    [] e.op = "neg"   -> C04Neg(e)
+    [] e.op = "mac"   -> C04Mac(e)
+    [] e.op = "chain" -> C04Chain(e)
+    [] OTHER -> FALSE
 =============================================================================
